@@ -4,6 +4,7 @@ import (
 	"fmt"
 	"go/token"
 	"go/types"
+	"regexp"
 	"sort"
 	"strings"
 
@@ -619,10 +620,49 @@ func runC20(c *Ctx) {
 		}
 		R.Add("E6.template", shortFn(cl)+" / checksum escaped like the codec", c.P.RelPos(cl.Pos()), s, d)
 		// phone / version from the arguments
+		// the phone reaches the header text and the template's BCD digits only through zero padding: every value written
+		// to the header's phone, substituted into the template, or assigned to the phone variable itself is built from the
+		// argument and `%0Ns` formats alone (a detour through a fixed-width integer loses 20-digit phones)
 		okP, okV := false, false
-		for _, st := range storesToFieldAny(cl, "TerminalPhoneNo") {
-			_ = st
-			okP = true
+		dP := "no store of the phone argument into Header.TerminalPhoneNo"
+		{
+			var vals []ssa.Value
+			nHdr := 0
+			for _, st := range storesToFieldAny(cl, "TerminalPhoneNo") {
+				vals = append(vals, st.Val)
+				nHdr++
+			}
+			for _, b := range cl.Blocks {
+				for _, ins := range b.Instrs {
+					if st, isSt := ins.(*ssa.Store); isSt {
+						if fv, isFV := st.Addr.(*ssa.FreeVar); isFV && fv.Name() == "phone" {
+							vals = append(vals, st.Val)
+						}
+					}
+					if call, isC := ins.(*ssa.Call); isC && (calleeName(&call.Call) == "strings.Replace" || calleeName(&call.Call) == "strings.ReplaceAll") && len(call.Call.Args) >= 3 {
+						vals = append(vals, call.Call.Args[2])
+					}
+				}
+			}
+			okP = nHdr > 0
+			padFmt := regexp.MustCompile(`^%0[0-9]+s$`)
+			for _, v := range vals {
+				sawArg := false
+				for _, o := range c.origins(v, map[string]bool{"fmt.Sprintf": true}, nil) {
+					switch {
+					case o.Kind == "param" && o.Name == "freevar phone":
+						sawArg = true
+					case o.Kind == "const" && padFmt.MatchString(o.Name):
+					default:
+						okP = false
+						dP = fmt.Sprintf("the phone written at %s is derived from %s, not from the phone argument by zero padding alone: digits of long (2019, 20-digit) phones can be lost", c.P.RelPos(instrPos(v)), o.String())
+					}
+				}
+				if !sawArg && okP {
+					okP = false
+					dP = fmt.Sprintf("the phone written at %s does not come from the phone argument", c.P.RelPos(instrPos(v)))
+				}
+			}
 		}
 		for _, st := range storesToFieldAny(cl, "ProtocolVersion") {
 			v := st.Val
@@ -639,7 +679,13 @@ func runC20(c *Ctx) {
 		if !okP || !okV {
 			s = report.Violated
 		}
-		R.Add("E6.template", shortFn(cl)+" / phone and version of the header come from the arguments", c.P.RelPos(cl.Pos()), s, fmt.Sprintf("phone stored: %v, version stored from the argument: %v", okP, okV))
+		dPV := ""
+		if !okP {
+			dPV = dP
+		} else if !okV {
+			dPV = "the header's protocol version is not stored from the version argument"
+		}
+		R.Add("E6.template", shortFn(cl)+" / phone and version of the header come from the arguments", c.P.RelPos(cl.Pos()), s, dPV)
 	}
 	// ---- E1 bounds of the simulator
 	var entries []*ssa.Function
@@ -672,4 +718,11 @@ func describeCode(st *absint.State, code absint.Term) string {
 		}
 	}
 	return "not fixed"
+}
+
+func instrPos(v ssa.Value) token.Pos {
+	if ins, ok := v.(ssa.Instruction); ok && ins.Pos().IsValid() {
+		return ins.Pos()
+	}
+	return v.Pos()
 }
